@@ -226,6 +226,12 @@ func init() {
 				}
 				return joinC(ids)
 			}
+			// a second, wider table: rows it sizes for itself may end up in the first one
+			aux := ""
+			if c%3 == 1 {
+				aux = g.do("newtable")
+				g.do("addheaders " + aux + " " + pick(2+r.n(3)))
+			}
 			nops := 1 + r.n(10)
 			var known []int // all non-separator rows with a cell slice, attached or not
 			for i := 0; i < nops; i++ {
@@ -252,6 +258,8 @@ func init() {
 					var id int
 					if r.chance(1, 2) {
 						id = idOf(g.do("newrow"))
+					} else if aux != "" {
+						id = idOf(g.do("newrowsized " + aux))
 					} else {
 						id = idOf(g.do("newrowsized " + t))
 					}
@@ -397,6 +405,7 @@ func init() {
 			ti := idOf(t)
 			next := 1
 			newErr := func() string { next++; return strconv.Itoa(next) }
+			selfDup := false             // the caller re-submitted the table's own list: per-source order no longer applies
 			raised := map[int][]string{} // row id (or -1 table) -> errors raised there, in order
 			failCbs := map[int]string{}  // cb id -> error id it raises
 			cbN := 0
@@ -486,6 +495,19 @@ func init() {
 				g.do("tadderrlist " + t + " nil," + e)
 				raised[-1] = append(raised[-1], e)
 			}
+			if r.chance(1, 4) {
+				// the list handed out by Errors(), extended by the caller and handed back: everything
+				// already recorded is recorded once more, then the new one
+				_, f0 := parseRes(g.do("obs " + t))
+				cur := listOf(f0["errs"])
+				e := newErr()
+				g.do("tadderrself " + t + " " + e)
+				selfDup = true
+				for _, old := range cur {
+					raised[-1] = append(raised[-1], old)
+				}
+				raised[-1] = append(raised[-1], e)
+			}
 			for p := 0; p < r.n(3); p++ {
 				g.do("invoke " + t)
 			}
@@ -536,7 +558,7 @@ func init() {
 					}
 				}
 			}
-			if !orderedPerSource(got, src) {
+			if !selfDup && !orderedPerSource(got, src) {
 				viol = append(viol, fmt.Sprintf("errors of one source are out of order in %v", got))
 			}
 			for _, id := range detached {
